@@ -12,7 +12,7 @@ from vf.checks.c11 import apply_ops, first_diff
 PROP = "C12"
 RULE = (
     "For Hypothesis-generated state pairs (old state S0 on disk, new state S1 in memory) x {json, pickle} x prior "
-    "on-disk configuration {no file; good file; good + stale .bak; good + stale .tmp; good + both}: the operation "
+    "on-disk configuration {no file; good file; good + stale .bak; good + stale truncated .tmp; good + both; good + a complete, LONGER stale .tmp}: the operation "
     "trace of one complete save is recorded through the file interposer (open, every write, flush, fsync, close, "
     "both renames, remove) and EVERY operation index k is enumerated x {crash before op k, crash after op k, op k "
     "fails with OSError} x durability {all written data survives; unsynced data lost -> synced prefix / cut in "
@@ -23,7 +23,7 @@ RULE = (
     "(state hash, format, prior, k, mode, durability variant)."
 )
 
-PRIORS = ("none", "good", "good+bak", "good+tmp", "good+bak+tmp")
+PRIORS = ("none", "good", "good+bak", "good+tmp", "good+bak+tmp", "good+bigtmp")
 MODES = ("crash_before", "crash_after", "fail")
 
 
@@ -69,7 +69,12 @@ class Setup:
             self.s0 = drive.typed({})
         if "bak" in prior:
             self.files[os.path.basename(self.bak)] = stale_bytes
-        if "tmp" in prior:
+        if "bigtmp" in prior:
+            # a COMPLETE temp file left by a failed save of a larger network (longer than what is saved now)
+            with persist.TimerPatch() as fake:
+                big_bytes, _ = _make(fake, version, self.path, case["old"] + case["extra"] + case["stale"] + [f"{n};255;0;0;17;2.0" for n in range(30, 40)])
+            self.files[os.path.basename(self.tmpfile)] = big_bytes
+        elif "tmp" in prior:
             self.files[os.path.basename(self.tmpfile)] = stale_bytes[: len(stale_bytes) // 2]
 
     def new_gateway(self):
